@@ -34,7 +34,10 @@ DOC_MATCHERS = ['wl_surface', 'xdg_*', '5', '4b', '.commit', 'wl_surface.commit'
                 '(x=0, y=0)', '55a.[motion, axis]', '[wl_pointer ! 55, 62].motion', '([x=0, y=0])', '*', '!', 'A: wl_pointer, wl_surface.[commit, destroy]',
                 'wl_pointer.[! motion, frame]', '! wl_callback, .frame', '.set_title("my app")', '(1.5)', '(-3)', '@5b', '.(@5b)', '(x=[1, 2 ! 3])', 'wl_surface@', '#5',
                 '(n*=1)', '([x, n*]=1)', '(*e=nil)', '(*=*)', '(*id=5b)', '.(x*=)', '(*=)', '.*(*a*=*s*)', '[*].[*]([*]=[*])', 'w*.s*(n*="s")', '(na*e=1.5)', '(! n*=1)',
-                '*: *.*(*)', '[A, *]: x*', '(?=1)', '(**=1)', '.(*=fd)', '(*=new)']
+                '*: *.*(*)', '[A, *]: x*', '(?=1)', '(**=1)', '.(*=fd)', '(*=new)',
+                # many wildcards in one word (D15: each `*` used to become a `.*` regex group)
+                '*******************0*****', '*a*b*c*d*e*f*g*h*i*j*k*l*m*n*o*p*0', 'w*l*_*s*u*r*f*a*c*e*0', '.*_*_*_*_*_*_*_*_*_*_*_*_*_*_*_*_*_*_*_*0',
+                '(*a*a*a*a*a*a*a*a*a*a*a*a*a*a*a*a*a*a*a*a*a*a*a*a*a*a*a*a*0=1)', '(x=*x*x*x*x*x*x*x*x*x*x*x*x*x*x*x*x*x*x*x*x*x*x*x*y)']
 TOKENS = ['7' * 4400, '-' + '9' * 5000, '[' * 300, '(' * 300, '[' * 300 + 'x' + ']' * 300, '(' * 200 + ')' * 200, '1e999', '-1e999', 'infinity', '[', ']', '(', ')', '!', ',', '.', ':', '=', '@', '#', '*', '"', ' ', '~', '-', '\\', "'", '\x1b[31m', '\x1b[0m', '\t', 'nil', 'new', 'destroyed', 'żółć', '日本', '0', '007', '1e9',
           'inf', 'nan', '1_0', '99999999999999999999999', 'a' * 300, '\x00', '%s', '{', '}', '..', '::', '((', '))', '[[', ']]', '""', 'unknown', 'A', 'wl_display', '1a', 'zz']
 COMMANDS = ['help', 'list', 'filter', 'breakpoint', 'matcher', 'connection', 'resume', 'quit', 'h', 'l', 'f', 'b', 'm', 'c', 'r', 'q', 'w', 'wl', 'wlh', 'wll', 'wlf', 'wlb', 'wlm',
@@ -235,6 +238,11 @@ def gen_matcher_text(rng):
     return t
 
 
+ITEM_CPU_BUDGET_S = 20.0    # CPU seconds (of the worker process, so load on the machine does not count) for ONE matcher text of <= 200
+                            # characters to be parsed, simplified, printed and evaluated on ~100 messages, or for one command line of
+                            # <= 200 characters; the ordinary cost is well under a millisecond.  Enforced by the runner (Ctx.heartbeat).
+
+
 def run_matcher(ctx, spec):
     env.setup()
     from core import matcher
@@ -255,6 +263,7 @@ def run_matcher(ctx, spec):
         t = gen_matcher_text(rng)
         ctx.ev()
         case = {'matcher': t}
+        ctx.heartbeat(case if len(t) <= 200 else None, 'matcher-eval-unbounded', 'parsing the matcher %r and evaluating it on %d messages' % (t, len(msgs)))
         try:
             m = matcher.parse(t)
         except RuntimeError:
@@ -265,12 +274,14 @@ def run_matcher(ctx, spec):
             continue
         accepted += 1
         ctx.sig(h64(t))
+
         try:
             str(m), repr(m)
             ms = m.simplify()
             str(ms), repr(ms)
             for x in msgs:
                 ms.matches(x)
+            ctx.heartbeat(None)
         except BaseException as e:
             import traceback
             ctx.violation('matcher-eval-exception', 'accepted matcher %r: %s: %r' % (t, type(e).__name__, e), case, tb=traceback.format_exc()[-800:])
@@ -309,18 +320,22 @@ def run_command(ctx, spec):
             s.feed([e['line'] + '\n' for e in st['entries']], cleanup=(state == 'closed'))
             if state == 'selected':
                 s.command('connection ' + names[0])
-        sessions.append((state, s, names))
+        sessions.append((state, s, names, []))
     for n in range(spec['n']):
-        state, s, names = rng.choice(sessions)
+        state, s, names, recent = rng.choice(sessions)
         line = gen_command(rng, names)
         # the quantifier is over PRINTABLE command lines (coloured input is C17's subject): drop control characters
         line = ''.join(ch if (ch.isprintable() or ch == '\t') else ' ' for ch in line)
         ctx.ev()
         ctx.sig(h64([state, line]))
         n0 = len(s.events)
-        case = {'command': line, 'state': state}
+        case = {'command': line, 'state': state, 'prior': list(recent)}
+        recent.append(line)
+        del recent[:-6]
+        ctx.heartbeat(case, 'command-unbounded', 'the command %r (state %s)' % (line, state))
         try:
             s.command(line)
+            ctx.heartbeat(None)
         except BaseException as e:
             import traceback
             ctx.violation('command-exception', 'in state %s, %r raised %s: %r' % (state, line, type(e).__name__, e), case, tb=traceback.format_exc()[-800:])
@@ -452,24 +467,38 @@ def replay(ctx, case):
             ctx.violation('matcher-parse-exception', 'parse(%r) raised %s: %r' % (case['matcher'][:200], type(e).__name__, e), case)
             return
         try:
-            ms = m.simplify()
-            str(m), repr(m), str(ms), repr(ms)
             s = Session()
             s.feed(['[1.0]  -> wl_display@1.sync(new id wl_callback@2)\n', '[1.0] zz_q@777.odd(1e999, -1e999, 0.0, fd 3, nil, "s", array)\n',
-                    '[1.0]  -> zz_q@777.frob(new id [unknown]@778, nil, wl_what@999, ???)\n'])
+                    '[1.0]  -> zz_q@777.frob(new id [unknown]@778, nil, wl_what@999, ???)\n',
+                    '[1.0]  -> zwp_primary_selection_device_manager_v1@779.get_device(new id zwp_primary_selection_device_v1@780, wl_seat@781)\n',
+                    '[1.0] zz_q@778.odd2("", "%s", nil, nil)\n' % ('x' * 5000)])
+
+            ctx.heartbeat(case, 'matcher-eval-unbounded', 'evaluation of the accepted matcher %r on 5 messages' % case['matcher'][:200])
+            ms = m.simplify()
+            str(m), repr(m), str(ms), repr(ms)
             for x in s.ctl.all_messages:
                 ms.matches(x)
-            print(repr(ms))
+            ctx.heartbeat(None)
+            print(repr(ms)[:300])
         except BaseException as e:
             ctx.violation('matcher-eval-exception', 'accepted matcher %r: %s: %r' % (case['matcher'][:200], type(e).__name__, e), case)
     elif 'command' in case:
         s = Session()
         if case.get('state') in ('loaded', 'selected', 'closed'):
-            s.feed(['[1.0] <1>  -> wl_display@1.sync(new id wl_callback@2)\n', '[2.0] <2>  -> wl_display@1.sync(new id wl_callback@2)\n'], cleanup=case.get('state') == 'closed')
+            s.feed(['[1.0] <1>  -> wl_display@1.sync(new id wl_callback@2)\n', '[2.0] <2>  -> wl_display@1.sync(new id wl_callback@2)\n',
+                    '[3.0] <1>  -> zwp_primary_selection_device_manager_v1@5.get_device(new id zwp_primary_selection_device_v1@6, wl_seat@7)\n'], cleanup=case.get('state') == 'closed')
             if case.get('state') == 'selected':
                 s.command('connection A')
+        for c in case.get('prior', []):
+            # (what the same session was told just before: a filter set then is what a bare `list` evaluates now)
+            try:
+                ctx.heartbeat(dict(case, command=c, prior=[]), 'command-unbounded', 'the command %r' % c)
+                s.command(c)
+            except BaseException:
+                pass
         n0 = len(s.events)
         ctx.ev()
+        ctx.heartbeat(case, 'command-unbounded', 'the command %r' % case['command'])
         try:
             s.command(case['command'])
         except BaseException as e:
